@@ -10,6 +10,7 @@ package jsonschema
 import (
 	"errors"
 	"fmt"
+	"math"
 	"net/url"
 	"reflect"
 	"regexp"
@@ -356,6 +357,21 @@ func (s *Schema) checkLocal(report func(error), infos map[*Schema]*resolvedInfo)
 	}
 
 	info := infos[s]
+
+	// The numeric keywords hold JSON numbers. A Schema built in Go could hold an
+	// infinity or a NaN, which no JSON text denotes and which cannot be compared
+	// with an instance.
+	for _, kw := range []struct {
+		name string
+		val  *float64
+	}{
+		{"multipleOf", s.MultipleOf}, {"minimum", s.Minimum}, {"maximum", s.Maximum},
+		{"exclusiveMinimum", s.ExclusiveMinimum}, {"exclusiveMaximum", s.ExclusiveMaximum},
+	} {
+		if kw.val != nil && (math.IsInf(*kw.val, 0) || math.IsNaN(*kw.val)) {
+			addf("%s: %v is not a JSON number", kw.name, *kw.val)
+		}
+	}
 
 	// Check and compile regexps.
 	if s.Pattern != "" {
